@@ -242,6 +242,9 @@ func (s *tendermintWALStore[V, H, A]) cleanupObsoleteWALs() error {
 	}
 
 	for _, log := range toDelete {
+		if err := verifhook.Fail("walstore:cleanup:before-remove"); err != nil {
+			return fmt.Errorf("cleanupObsoleteWALs: remove obsolete WAL %s: %w", log.Path, err)
+		}
 		if err := log.FS.Remove(log.Path); err != nil && !errors.Is(err, os.ErrNotExist) {
 			return fmt.Errorf("cleanupObsoleteWALs: remove obsolete WAL %s: %w", log.Path, err)
 		}
